@@ -28,6 +28,7 @@ type Obligation struct {
 	Status  string // discharged | refuted | undecided
 	Solver  string
 	Seconds float64
+	Seconds0 float64
 	Model   string
 	Query   string
 }
@@ -62,6 +63,8 @@ type Exec struct {
 	frameN  int
 	pendingTag0 []string
 	inlineDefs  bool
+	allocSyms   map[string]bool
+	pureInst    map[string]bool
 	defs        map[string]string
 	escaped     map[string]*LV
 	specFuncsUsed []string
@@ -70,7 +73,7 @@ type Exec struct {
 func newExec(L *Loaded, fc *FuncContract, pkg *types.Package) *Exec {
 	ex := &Exec{L: L, declared: map[string]bool{}, strLits: map[string]string{}, comps: map[string]string{},
 		subTags: map[string]int{}, subSeen: map[string]bool{}, assumed: map[string]bool{}, abstractions: map[string]bool{},
-		immGlobals: map[string]bool{}, defs: map[string]string{}, boxed: map[string]bool{}, fc: fc, pkg: pkg, nameCnt: map[string]int{}}
+		immGlobals: map[string]bool{}, defs: map[string]string{}, allocSyms: map[string]bool{}, pureInst: map[string]bool{}, boxed: map[string]bool{}, fc: fc, pkg: pkg, nameCnt: map[string]int{}}
 	ex.sorts = newSorts(ex)
 	return ex
 }
@@ -205,6 +208,7 @@ func (ex *Exec) assumeWellTyped(v T, ty types.Type, reach T, st *State) {
 // allocRef returns a fresh non-nil reference not allocated in st, and marks it allocated.
 func (ex *Exec) allocRef(st *State, reach T, prefix string) T {
 	r := ex.fresh(prefix, "Ref")
+	ex.allocSyms[r.s] = true
 	ac := ex.allocComp()
 	a := ex.get(st, ac)
 	ex.assume(reach, and(not(eq(r, tNil)), not(sel(a, r))))
